@@ -99,10 +99,17 @@ impl<F: Future> Future for Gated<F> {
 
 impl<F> Drop for Gated<F> {
     fn drop(&mut self) {
+        // tell the gate even if a destructor inside the wrapped future panics
+        struct Forget<'a>(&'a dyn TaskGate, u64);
+        impl Drop for Forget<'_> {
+            fn drop(&mut self) {
+                self.0.dropped(self.1);
+            }
+        }
+        let _forget = Forget(&*self.gate, self.id);
         // drop the inner future first so that its destructors (lifecycle guards) are
         // part of this task's history before the gate forgets the task
         self.inner = None;
-        self.gate.dropped(self.id);
     }
 }
 
